@@ -1,14 +1,19 @@
 """C17 — every wire and file encoding round-trips over its whole value domain.
 
-Proved part (shm api): translator `shm_api` (ekw/c17_translate.py) reads src/cascade/shm/api.py with `ast`
-and regenerates lean/EkwVerif/Gen/ShmApi.lean; Model/Codec.lean interprets the table; Props/C17.lean
-proves round trip + rejection generically and `SchemaOK Gen.shmApi` by `decide`.
-Tie: the generated table + Lean codec must produce byte for byte what the real api.ser produces
-and decode what api.deser decodes (also on truncated / corrupted bytes), which validates the
-translator as well.
-Oracle (property text only): decode(encode(m)) == m for every class and boundary value on the real
-code; a value may be refused only if it is outside the admitted domain; nothing is ever altered.
-Sampled part (pickle / pydantic / orjson): ekw/c17_sampled.py.
+shm api (proved): translator `shm_api` (ekw/c17_translate.py) reads src/cascade/shm/api.py with `ast` (and the receive buffers
+of shm/server.py / shm/client.py) and regenerates lean/EkwVerif/Gen/ShmApi.lean; Model/Codec.lean interprets the table and
+models the datagram transport; Props/C17.lean proves round trip + rejection generically, `SchemaOK Gen.shmApi` and the
+buffer condition by `decide`, and that nothing is altered end to end.
+Tie: the generated table + Lean codec must produce byte for byte what the real api.ser produces and decode what api.deser
+decodes (also on truncated / corrupted bytes), which validates the translator as well; `wire` is compared with the real
+client and server talking over real UDP sockets (ekw/c17_wire.py).
+JSON encodings (proved at the level of documents): Model/Json.lean models orjson on values of type Any, the job-instance
+dump / load and the gateway request / response dump / parse. Tie: the TEXT the model renders must be byte for byte what the
+real code writes; the model must refuse exactly when the real encoder refuses; its round trip must say "preserved" exactly
+when the real round trip preserved the message.
+Oracle (property text only): decode(encode(m)) == m for every class and boundary value on the real code; a value may be
+refused only if it is outside what the encoding can carry; nothing is ever altered.
+Sampled part (pickle / pydantic / orjson through the real code): ekw/c17_sampled.py.
 """
 import dataclasses
 import enum
@@ -17,57 +22,85 @@ import hashlib
 import json
 
 PROPERTY = "C17"
-LEVEL_TEXT = ("Lean theorems over Model/Codec.lean (generic interpreter of the ser/deser field sequences and the tag table of "
-              "cascade.shm.api): for EVERY schema whose ser and deser sequences agree and EVERY value in the domain (unbounded integers "
-              "and strings, by induction over the field list) decode(encode v) = v also with trailing bytes; every value outside the "
-              "domain makes the encoder fail (never truncation); the table regenerated from src/cascade/shm/api.py on every run "
-              "satisfies SchemaOK (ser = deser per class, distinct one-byte tags, every concrete class tagged, size and free-space "
-              "fields >= 8 bytes, string length prefixes >= 4 bytes) by `decide`, hence every message of cascade.shm.api with sizes "
-              "< 2^64 and ASCII strings < 2^32 round-trips (with a witness per class at 2^64-1). Tied to the real api.ser/api.deser byte "
-              "for byte, also on corrupted input. Additionally the JSON shape of a job instance (Model/Json.lean: keys of job.dict()) "
-              "is proved to load back to the same instance for jobs of any size and compared with the dump the real code writes.")
-LEVEL_NOTE = ("proved: shm api (src/cascade/shm/api.py) through the generated table; modelled, not verified: the translator "
-              "(validated each run by the byte-level comparison with the real code) and Model/Codec.lean. SAMPLED, NOT PROVED: executor "
-              "messages (pickle; serde.py, comms.callback / ReliableSender.send / send_data -> Listener._recv_one incl. payload frames), "
-              "controller reports (pickle), gateway request/response pairs (pydantic + orjson; request_response, parse_request, "
-              "serialize_response) and JobInstance -> orjson.dumps(job.dict()) -> file -> JobInstance (router._spawn_local writer, "
-              "benchmarks get_job reader) are round-tripped through the real code: a deterministic sweep (every class x every leaf x "
-              "every boundary value / structured identifier / container shape) plus boundary-biased random values generated from the "
-              "type annotations; decoded objects are compared FIELD BY FIELD (never by repr), and mappings whose order carries meaning "
-              "(JobInstance.tasks, TaskDefinition.input_schema / output_schema, static_input_kw / static_input_ps) are compared WITH "
-              "their order; pickle, pydantic and orjson themselves are trusted (Model/Json.lean models only the key layout of the job "
-              "dump, not pydantic's coercions, orjson's number formatting nor the ORDER of object keys -- Lean's Json objects are "
-              "sorted maps, the order is checked by the Python oracle only). The frame-sequence "
-              "parser of comms.Listener is proved under C06, here it is only used as a pipe. String lengths compared with the real "
-              "code reach 70 000 characters (2^32-1 is covered by the theorem only). The UDP transport of the shm protocol "
-              "(recv(1024)) is outside the model.")
-TECHNIQUE = ("Lean 4 proof by induction over field sequences (generic codec) + AST translator emitting the schema table checked by "
-             "`decide` + byte-for-byte differential correspondence with the real api.ser/api.deser + round-trip oracle on the real code")
+LEVEL_TEXT = ("Lean theorems in three groups. (1) shm api, Model/Codec.lean (generic interpreter of the ser/deser field sequences and the tag "
+              "table of cascade.shm.api): for EVERY schema whose ser and deser sequences agree and EVERY value in the domain (unbounded integers "
+              "and strings, induction over the field list) decode(encode v) = v also with trailing bytes; every value outside the domain makes "
+              "the encoder fail; the table regenerated from src/cascade/shm/api.py on every run satisfies SchemaOK (ser = deser per class, "
+              "distinct one-byte tags, every concrete class tagged, size fields >= 8 bytes, string length prefixes >= 4 bytes) by `decide`. "
+              "(2) the same END TO END over the datagram transport (`wire` = api.ser, sendto -- refused above 65507 bytes --, recv into a buffer "
+              "that CUTS a longer datagram silently, the lenient api.deser): for every SchemaOK table, every buffer of at least 65507 bytes and "
+              "EVERY message (in the domain or not, of any size) whatever the receiving side decodes IS the message sent (c17_wire_never_alters); "
+              "in-domain messages that fit one datagram arrive, longer ones are refused at the sender; the buffers of shm/server.py (recvfrom) "
+              "and shm/client.py (recv), read from the source by the translator, satisfy the hypothesis by `decide`; with the 1024-byte buffer "
+              "of the pinned tree a key of 1020 characters is cut to 1019 without error (c17_wire_small_buffer_fails). "
+              "(3) the JSON encodings, Model/Json.lean (token-level documents with ordered keys and int / float tokens; `PyVal` = what a field "
+              "of type Any can hold; encAny / decAny = orjson.dumps / loads; dump / load of job instances and of gateway requests and "
+              "responses with their `clazz` key): JSON-native values / jobs / requests are accepted and round-trip, at any size and depth; "
+              "whatever the encoder ACCEPTS comes back unchanged unless it contains a tuple, a non-finite float or a scalar orjson serialises "
+              "natively as text (datetime, date, time, UUID) -- `*_never_alters_partial` with the decidable hypothesis Lossless; the full "
+              "clause fails on exactly these three classes (`c17_any_full_fails`, `c17_job_json_full_fails`, `c17_gateway_request_full_fails`; "
+              "three known findings, replayed on the real code on every run); the encoder refuses EXACTLY the values with a bytes / set / "
+              "frozenset / unknown-class / beyond-64-bit-integer / non-str-key node (`c17_any_rejects_iff`, `c17_job_json_rejects`); gateway "
+              "responses round-trip and a response whose class does not answer the request sent is refused. "
+              "Tied to the real code: shm byte for byte (also on corrupted input) and over real UDP sockets with the real client and server; "
+              "JSON byte for byte with the text the real code writes (key order, number formatting, string escapes), refusal for refusal, "
+              "and `preserved` for `preserved`.")
+LEVEL_NOTE = ("proved: shm api (src/cascade/shm/api.py through the generated table; shm/server.py + shm/client.py receive buffers), the JSON "
+              "documents of job instances (gateway/router.py writer, benchmarks/__main__.py reader) and of gateway requests / responses "
+              "(gateway/client.py). Modelled, not verified: the translator (validated each run by the byte-level comparison with the real "
+              "code), Model/Codec.lean, Model/Json.lean; `render` (the text of a document) is compared with the real bytes but no theorem "
+              "speaks about text: the real bytes are parsed back by Python's stdlib json (independent of orjson) before the model's loader "
+              "reads them. NOT modelled: pydantic's lax coercions on input the encoder never produces, strings with lone surrogates (Lean "
+              "strings cannot hold them; orjson refuses them -- sampled), the binary-to-decimal conversion of floats (the model takes the "
+              "shortest digits from Python's repr and reproduces orjson's format from them). NO THEOREM, sampled only (the clause "
+              "'rejected when encoding' is carried by the oracle alone there): executor messages (pickle; serde.py, comms.callback / "
+              "ReliableSender.send / send_data -> Listener._recv_one incl. payload frames, over capturing sockets and over REAL zmq "
+              "inproc sockets with bytes / memoryview / bytearray / str payloads and frames up to 2^20+1 bytes, 2^24+1 in the thorough "
+              "tier), controller reports (pickle; also through the real Reporter with the report address '<address>,<job_id>' built by "
+              "router._spawn_local). Sampled values: a deterministic sweep (every class x every leaf x every boundary value / structured "
+              "identifier / container shape / every non-JSON class for the Any leaves) plus boundary-biased random values generated from "
+              "the type annotations; decoded objects are compared FIELD BY FIELD (never by repr), order-sensitive where the order carries "
+              "meaning; all differences of a case are reported, each with the observed alteration. The frame-sequence parser of "
+              "comms.Listener is proved under C06. String lengths compared with the real code reach 70 000 characters; the refusal of a "
+              "string of 2^32 characters is exercised on the real code with a str whose len() says 2^32 (the model's bound is the theorem).")
+TECHNIQUE = ("Lean 4 proof by induction over field sequences (generic codec), mutual structural induction over nested values (JSON model) + AST "
+             "translator emitting the schema table and the receive buffers checked by `decide` + byte-for-byte differential correspondence "
+             "with the real api.ser/api.deser, with the real UDP client/server and with the JSON text the real code writes + round-trip "
+             "oracle on the real code")
 LEAN_PROPS = ["EkwVerif.Props.C17"]
 LEAN_DRIVERS = ["C17"]
 RULE = ("shm: (a) deterministic sweep: every class x every field x every boundary value (ints 0, 1, 2^8, 2^16, 2^31, 2^32-1, 2^32, "
         "2^32+1, 2^63, 2^64-1, 2^64, 2^64+1, 2^70, negatives; strings empty, md5-like, control chars, DEL, non-ASCII, lone surrogate, "
         "lengths 255/256/65535/65536/70000 for keys; enum members and non-members; wrong-typed values) with distinct values in the "
-        "other fields; (b) random messages, boundary-biased; (c) decoding of truncated / corrupted / re-tagged byte strings. "
+        "other fields; (b) random messages, boundary-biased; (c) decoding of truncated / corrupted / re-tagged byte strings; (d) a str "
+        "whose len() is 2^32 in every class. "
+        "shm wire: request/response pairs of in-domain messages through the real client and server over UDP: every class x every string "
+        "field x lengths 0..70000 around 1019/1020 (the old buffer), 4096, 65507 (sampled: mostly the short ones), for six classes the "
+        "exact length that fills the largest datagram and one more, random pairs. "
         "sampled families exec/report/gateway/job: (a) deterministic sweep, the same for every seed: per message class a base value with "
         "distinct fields and every variant that differs from it in ONE leaf -- ints at the 2^31/2^32/2^53/2^63/2^64 boundaries, "
         "identifier strings with the separators the code itself uses ('.', ',', ':', '/', '|', blanks), empty components, fully "
         "qualified host names, ip addresses, zmq addresses, unicode, NUL; container shapes (empty, duplicates, pairs of ids with EQUAL "
-        "repr such as ('a.b','c') / ('a','b.c')); every str-keyed mapping with >= 2 keys declared in NON-sorted order "
-        "(['b','a'], ['10','9','2'], ['upper','lower','__aux'], ...); (b) random values generated from the real type annotations, "
-        "with the same structured shapes frequent (ids re-used / recombined inside one message), bytes payloads, multi-output "
-        "tasks with positional and keyword edges, 11 positional static inputs; (c) fixed probes outside the JSON domain. A failing "
-        "case is shrunk greedily before it is reported. "
-        "non-trivial = message with at least one field carrying a non-default value; distinct by content hash")
+        "repr such as ('a.b','c') / ('a','b.c')); every str-keyed mapping with >= 2 keys declared in NON-sorted order; for every leaf of "
+        "type Any additionally every class JSON cannot carry: bytes, tuple (also nested), set, frozenset, dict with int / bool / None / "
+        "float / tuple / bytes keys (also colliding with a str key), inf / -inf / nan, complex, datetime, date, UUID, Decimal, Path, "
+        "integers beyond 64 bit, lone surrogate; payload frames bytes / memoryview / bytearray / str over real zmq sockets; job ids with "
+        "commas through the real Reporter; (b) random values generated from the real type annotations with the same shapes frequent "
+        "(a third of the JSON cases carry non-JSON values in their Any leaves); (c) fixed probes. any: values of type Any straight "
+        "through orjson against encAny / decAny / render and the predicates Native / Lossless / Refused. A failing case is shrunk "
+        "greedily before it is reported. non-trivial = message with at least one field carrying a non-default value; distinct by content hash")
 ASSUMPTIONS = [
     "the translator recognises only declarative module-level code in api.py; behaviour installed at run time (monkeypatching inside a function) is seen by the byte-level comparison only",
-    "shm messages travel in one datagram that is delivered whole (server/client use recv(1024); longer messages are outside the model)",
+    "shm messages travel as ONE UDP datagram over IPv4: sendto refuses a payload above 65507 bytes with EMSGSIZE (measured on a real socket on every run and compared with the model's maxDatagram) and a datagram longer than the receive buffer is cut without error (the kernel's behaviour the model's `transport` mirrors; observed on the real sockets)",
+    "shm/server.py and shm/client.py each contain exactly one socket receive, `recvfrom(N)` / `recv(N)` with an integer literal N (anything else is reported as an unrecognised source)",
     "all int fields of cascade.shm.api carry byte counts (dataset size, free space): the admitted domain is 0 <= n < 2^64",
     "EmptyCommand is an abstract base (never sent): it need not be in the tag table",
-    "zmq sockets, the poller, subprocess and open() of router/benchmarks are replaced by in-process fakes in the sampled part",
-    "JSON domain for the sampled part: integers in [-2^63, 2^64), well-formed unicode, finite floats, JSON-native containers",
+    "zmq sockets, the poller, subprocess and open() of router/benchmarks are replaced by in-process fakes in the sampled part (the zmq_* pipes use real inproc sockets)",
+    "domain of the JSON encodings: integers in [-2^63, 2^64), well-formed unicode, finite floats, lists, str-keyed mappings; every other value a field of type Any holds is OUTSIDE: the encoder may refuse it, it may never hand back something else",
+    "the report address '<address>,<job_id>' is split at the first comma: gateway addresses contain no comma (job ids may)",
+    "a payload frame handed to send_data as memoryview / bytearray (what the data server passes) arrives as bytes of the same content: judged by content",
 ]
-TRUSTED_EXTRA = ["pickle / cloudpickle / pydantic / orjson round trips are sampled through the real code, not modelled"]
+TRUSTED_EXTRA = ["pickle / cloudpickle round trips are sampled through the real code, not modelled; pydantic and orjson are modelled at document level (Model/Json.lean) and compared byte for byte"]
 
 TWO64 = 2 ** 64
 INT_BOUNDS = [0, 1, 255, 256, 65535, 65536, 2**31 - 1, 2**31, 2**32 - 1, 2**32, 2**32 + 1, 2**40, 2**63 - 1, 2**63,
@@ -383,6 +416,34 @@ def _nontrivial(case, classes):
 
 # ----------------------------------------------------------------------------- the check
 
+class Batch:
+    """All lines for the Lean driver of one run go through ONE `lean --run` (its start-up costs several seconds): the parts of the
+    check register their lines with a handler that is given the driver's answers afterwards."""
+
+    def __init__(self):
+        self.parts = []
+
+    def add(self, lines, handler):
+        self.parts.append((list(lines), handler))
+
+    def flush(self, ctx):
+        from ekw.core import lean_drive
+        lines = [l for part, _ in self.parts for l in part]
+        if not lines:
+            return
+        ctx.count("model:driver_lines", len(lines))
+        ctx.count("model:driver_input_bytes", sum(map(len, lines)))
+        res = lean_drive("C17", lines)
+        if len(res) != len(lines):
+            ctx.disagree("driver-output-length", {"lines": len(lines)}, len(res), len(lines))
+            return
+        k = 0
+        for part, handler in self.parts:
+            handler(res[k:k + len(part)])
+            k += len(part)
+        self.parts = []
+
+
 def _load_corpus():
     from ekw.core import CORPUS_DIR
     out = []
@@ -395,8 +456,7 @@ def _load_corpus():
     return out
 
 
-def _run_shm(ctx, with_model, n_random, long_keys=True):
-    from ekw.core import lean_drive
+def _run_shm(ctx, with_model, n_random, long_keys=True, batch=None):
     try:
         classes = shm_classes()
     except Exception as e:     # the module does not even import: nothing can be encoded
@@ -449,43 +509,80 @@ def _run_shm(ctx, with_model, n_random, long_keys=True):
     real_decs = [real_dec(h, classes) for h in dec_inputs]
     for d in real_decs:
         ctx.count("shm:dec:" + ("ok" if "ok" in d else d["err"]))
+    _shm_probes(ctx, classes, dec_inputs, real_decs)
     if not with_model:
         return
     lines = [json.dumps({"op": "classes"})]
     lines += [json.dumps({"op": "enc", "cls": c["cls"], "vals": [_wire(v) for v in c["vals"]]}) for c in cases]
     lines += [json.dumps({"op": "dec", "hex": h}) for h in dec_inputs]
-    res = lean_drive("C17", lines)
-    if len(res) != len(lines):
-        ctx.disagree("driver-output-length", {"lines": len(lines)}, len(res), len(lines))
-        return
-    # translator cross-check: classes, field order and tags as the running module has them
+
+    def handle(res):
+        # translator cross-check: classes, field order and tags as the running module has them
+        import cascade.shm.api as api
+        model_classes = {d["cls"]: d for d in json.loads(res[0])}
+        real_classes = {n: {"cls": n, "fields": [f for f, _ in fl], "base": b, "response": n.endswith("Response"),
+                            "tag": (api.c2b[c].hex() if c in api.c2b else None)} for n, (c, fl, b) in classes.items()}
+        ctx.traces += 1
+        if model_classes != real_classes:
+            diff = sorted(set(model_classes) ^ set(real_classes)) or [n for n in real_classes if model_classes[n] != real_classes[n]]
+            ctx.disagree("translator-classes", {"classes": diff}, {n: model_classes.get(n) for n in diff}, {n: real_classes.get(n) for n in diff})
+        k = 1
+        ndis = 0
+        for case, r in zip(cases, real_encs):
+            m = json.loads(res[k])
+            k += 1
+            ctx.traces += 1
+            if r.get("err", "").startswith("build:"):
+                continue
+            if m != r and ndis < 20:
+                ndis += 1
+                ctx.disagree("shm-encode", case if sum(len(v.get("s", [])) for v in case["vals"]) < 500 else {"case": _show(case, classes)},
+                             _short(m), _short(r))
+        for h, r in zip(dec_inputs, real_decs):
+            m = _unwire(json.loads(res[k]))
+            k += 1
+            ctx.traces += 1
+            if m != r and ndis < 40:
+                ndis += 1
+                ctx.disagree("shm-decode", {"hex": h[:400], "len": len(h) // 2}, _short(m), _short(r))
+    batch.add(lines, handle)
+
+
+class _LongStr(str):
+    """a str that claims 2^32 characters (a real one would need 4 GiB): reaches the length check of ser_str on the real code"""
+
+    def __len__(self):
+        return 2 ** 32
+
+
+def _shm_probes(ctx, classes, dec_inputs, real_decs):
     import cascade.shm.api as api
-    model_classes = {d["cls"]: d for d in json.loads(res[0])}
-    real_classes = {n: {"cls": n, "fields": [f for f, _ in fl], "base": b, "response": n.endswith("Response"),
-                        "tag": (api.c2b[c].hex() if c in api.c2b else None)} for n, (c, fl, b) in classes.items()}
-    ctx.traces += 1
-    if model_classes != real_classes:
-        diff = sorted(set(model_classes) ^ set(real_classes)) or [n for n in real_classes if model_classes[n] != real_classes[n]]
-        ctx.disagree("translator-classes", {"classes": diff}, {n: model_classes.get(n) for n in diff}, {n: real_classes.get(n) for n in diff})
-    k = 1
-    ndis = 0
-    for case, r in zip(cases, real_encs):
-        m = json.loads(res[k])
-        k += 1
-        ctx.traces += 1
-        if r.get("err", "").startswith("build:"):
+    # (1) a string of 2^32 characters does not fit the 4-byte length prefix: the encoder must refuse it (theorem: InDom .str needs
+    #     length < 256^lw); the real branch is reached with a str whose __len__ says 2^32
+    for cname, (cls, fields, is_base) in classes.items():
+        strs = [n for n, tp in fields if tp is str]
+        if is_base or not strs:
             continue
-        if m != r and ndis < 20:
-            ndis += 1
-            ctx.disagree("shm-encode", case if sum(len(v.get("s", [])) for v in case["vals"]) < 500 else {"case": _show(case, classes)},
-                         _short(m), _short(r))
-    for h, r in zip(dec_inputs, real_decs):
-        m = _unwire(json.loads(res[k]))
-        k += 1
-        ctx.traces += 1
-        if m != r and ndis < 40:
-            ndis += 1
-            ctx.disagree("shm-decode", {"hex": h[:400], "len": len(h) // 2}, _short(m), _short(r))
+        kw = {n: (_LongStr("k") if n == strs[-1] else (list(tp)[0] if _is_enum(tp) else 1 if tp is int else n)) for n, tp in fields}
+        try:
+            b = api.ser(cls(**kw))
+            ctx.violation({"kind": "over-long-string-accepted", "family": "shm", "cls": cname},
+                          {"family": "shm-probe", "probe": "str-of-2^32-chars", "cls": cname, "field": strs[-1]},
+                          f"api.ser({cname}({strs[-1]}=<str whose len() is 2^32>)) returned {len(b)} bytes instead of raising")
+        except OverflowError:
+            ctx.count("shm:probe:str_len_2^32:overflow")
+        except Exception as e:
+            ctx.count("shm:probe:str_len_2^32:" + type(e).__name__)
+    # (2) api.deser is annotated `data: bytes` (recv / recvfrom return bytes). What it does with the other buffer types is counted,
+    #     not judged: a bytearray makes `b2c[data[:1]]` raise (a slice of a writable memoryview is unhashable)
+    for h, r in list(zip(dec_inputs, real_decs))[:60]:
+        for name, conv in (("bytearray", bytearray), ("memoryview", memoryview)):
+            try:
+                m = api.deser(conv(bytes.fromhex(h)))
+                same = "ok" in r and type(m).__name__ == r["ok"]["cls"]
+                ctx.count(f"shm:deser({name}):" + ("same-as-bytes" if same else "differs"))
+            except Exception as e:
+                ctx.count(f"shm:deser({name}):" + ("raises-like-bytes" if "err" in r and err_name(e) == r["err"] else "raises:" + type(e).__name__))
 
 
 def _wire(v):
@@ -506,9 +603,9 @@ def _short(x):
     return x if len(s) < 600 else s[:600] + "..."
 
 
-def _run_sampled(ctx, n_per_family, with_model=False):
+def _run_sampled(ctx, n_per_family, with_model=False, batch=None):
     from ekw import c17_sampled as S
-    job_lines = []      # (case, model input, real dump) for the Model/Json comparison
+    model_q = []        # (where, case, driver line, expectation) for the Model/Json comparison
     try:
         S.registry()
         S.exec_message_classes()
@@ -529,6 +626,8 @@ def _run_sampled(ctx, n_per_family, with_model=False):
         for _ in range(n_per_family):
             cases.append(S.FAMILIES[fam][0](ctx.rng))
     cases += S.fixed_probes()
+    if not ctx.quick:
+        cases += S.large_payload_cases()
     reported = set()
     for case in cases:
         case = json.loads(json.dumps(case))        # exactly what a replay file would hold
@@ -548,60 +647,410 @@ def _run_sampled(ctx, n_per_family, with_model=False):
             ctx.count(f"{fam}:{'sweep:' if 'sweep' in case else ''}{k}", n)
         if r["status"] == "ok":
             ctx.traces += 1
-            if with_model and fam == "job" and S.LAST_JOB_BYTES[0] is not None and len(S.LAST_JOB_BYTES[0]) < 200000:
-                try:
-                    real = json.loads(S.LAST_JOB_BYTES[0])
-                    job_lines.append((case, S.job_model_input(S.build(case["spec"])), real))
-                except Exception as e:
-                    ctx.count("job:model_input_failed:" + type(e).__name__)
-        if r["violation"] is not None:
-            sig, what = r["violation"]
-            key = json.dumps(sig, sort_keys=True)
+        if with_model and fam in ("job", "gateway") and r["status"] in ("ok", "mismatch", "rejected", "decode-error"):
+            _queue_model(ctx, S, case, r, model_q)
+        for sig, what in r["violations"]:
+            # reported (and shrunk) once per kind of failure: family, kind, class, observed alteration -- not per pipe / field
+            key = json.dumps({k: v for k, v in sig.items() if k not in ("pipe", "field", "part")}, sort_keys=True)
+            ctx.count(f"{fam}:violation:{sig.get('kind')}:{sig.get('alter', '')}")
             if key not in reported:
                 reported.add(key)
+                vcase = case
                 try:
-                    small = S.shrink(case) if len(reported) <= 12 else case      # shrink once per kind of failure, bounded in total
+                    small = S.shrink(case, budget=200, sig=sig) if len(reported) <= 16 else case      # bounded in total
                     r2 = S.evaluate(small)
-                    if r2["violation"] is not None and r2["violation"][0] == sig:
-                        case, what = small, r2["violation"][1]
+                    hit = [v for v in r2["violations"] if v[0] == sig]
+                    if hit:
+                        vcase, what = small, hit[0][1]
                 except Exception as e:
                     ctx.count("sampled:shrink_failed:" + type(e).__name__)
-                ctx.violation(sig, case, what)
+                ctx.violation(sig, vcase, what)
+
+    if with_model:
+        _queue_any(ctx, S, model_q, ctx.budget(300, 6000))
+    if model_q:
+        _compare_model(ctx, model_q, batch)
 
 
-    if job_lines:
-        from ekw.core import lean_drive
-        res = lean_drive("C17", [json.dumps({"op": "job", "job": mi, "real": real}, ensure_ascii=False) for _, mi, real in job_lines])
-        if len(res) != len(job_lines):
-            ctx.disagree("driver-output-length", {"lines": len(job_lines)}, len(res), len(job_lines))
+def _queue_model(ctx, S, case, r, q):
+    """Model/Json.lean against the real JSON encoders, case by case: the model must refuse exactly when the real encoder
+    refuses (and for the same reason), otherwise write the SAME BYTES; its own round trip must say `preserved` exactly when
+    the real round trip preserved the value, and its loader must read the real document (parsed by an independent parser)."""
+    fam = case["family"]
+    try:
+        if fam == "job":
+            mi = S.job_model_input(S.build(case["spec"]))
+            real = S.LAST_JOB_BYTES[0]
+            if real is not None and len(real) > 200000:
+                ctx.count("model:skipped:large")
+                return
+            exp = {"rejected": S.enc_err_kind(r["detail"]) if r["status"] == "rejected" else None, "bytes": real,
+                   "preserved": r["status"] == "ok"}
+            q.append(("job-json", case, {"op": "job", "job": mi, "real": S.doc_to_model(real) if real is not None else None}, exp))
             return
-        nd = 0
-        for (case, mi, real), line in zip(job_lines, res):
-            ctx.traces += 1
-            ctx.count("job:model_compared")
+        req, rsp = S.build(case["spec"]), S.build(case["rsp"])
+        rq, rs = S.LAST_GW_BYTES["req"], S.LAST_GW_BYTES["rsp"]
+        if (rq is not None and len(rq) > 200000):
+            ctx.count("model:skipped:large")
+            return
+        req_rejected = r["status"] == "rejected" and r["part"] == "request"
+        if rq is None and not req_rejected:
+            return
+        qi = S.gw_model_input(req)
+        exp = {"rejected": S.enc_err_kind(r["detail"]) if req_rejected else None, "bytes": rq,
+               "preserved": not (r["status"] in ("mismatch", "decode-error") and r["part"] == "request")}
+        q.append(("gateway-request-json", case, {"op": "gwreq", "req": qi, "real": S.doc_to_model(rq) if rq is not None else None}, exp))
+        if rs is not None and not req_rejected and exp["preserved"]:
             try:
-                m = json.loads(line)
+                ri = S.gw_model_input(rsp)
+                exp2 = {"rejected": None, "bytes": rs, "preserved": r["status"] == "ok", "answers": True}
+                q.append(("gateway-response-json", case, {"op": "gwrsp", "req": qi, "rsp": ri, "real": S.doc_to_model(rs)}, exp2))
+            except S.NotModelled:
+                ctx.count("model:not-modelled:response")
+    except S.NotModelled as e:
+        ctx.count(f"model:not-modelled:{fam}:{e}")
+    except Exception as e:
+        ctx.count("model:input_failed:" + type(e).__name__)
+        ctx.disagree("model-input", case if len(json.dumps(case)) < 3000 else {"cls": case["cls"]}, f"{type(e).__name__}: {e}", "the harness could not describe the real message to the model")
+
+
+def _queue_any(ctx, S, q, n):
+    """values of type Any straight through orjson.dumps / orjson.loads against encAny / decAny / render and the predicates the
+    theorems are stated with (Native, Lossless, Refused)"""
+    import orjson
+    prof = S.Profile("json", bad=True)
+    specs = list(S.SWEEP_ANY) + list(S.SWEEP_ANY_NON_JSON)
+    for _ in range(n):
+        prof.exotic = ctx.rng.choice([0.0, 0.1, 0.3, 0.5])
+        specs.append(S.gen_json_any(ctx.rng, prof))
+    for spec in specs:
+        spec = json.loads(json.dumps(spec))
+        try:
+            v = S.build(spec)
+            mi = S.py_to_model(v)
+        except S.NotModelled:
+            ctx.count("any:not-modelled")
+            continue
+        except Exception as e:
+            ctx.count("any:build_failed:" + type(e).__name__)
+            continue
+        exp = {"rejected": None, "bytes": None, "preserved": None, "any": True, "native": not S.json_domain_problems(spec, any_leaf=True)}
+        back = None
+        try:
+            b = orjson.dumps(v)
+            exp["bytes"] = b
+            back = orjson.loads(b)
+            exp["preserved"] = not S.diffs(v, back, limit=1)
+        except Exception as e:
+            exp["rejected"] = S.enc_err_kind(str(e))
+        ctx.count("any:" + ("rejected:" + exp["rejected"] if exp["rejected"] else "preserved" if exp["preserved"] else "altered"))
+        for cl in sorted(set(S.json_domain_problems(spec, any_leaf=True))):
+            ctx.count("any:with:" + cl)
+        try:
+            q.append(("any-json", {"family": "any", "spec": spec}, {"op": "any", "v": mi, "back": S.py_to_model(back)}, exp))
+        except S.NotModelled:
+            ctx.count("any:not-modelled")
+
+
+def _compare_model(ctx, q, batch):
+    # the driver runs in Lean's interpreter (about 1 s per MB of input): documents above 20 kB are compared for a few cases only
+    # (quick tier), the sweep of the gateway classes -- one leaf changed per case -- every other case
+    lines, q2, big = [], [], 0
+    for k, item in enumerate(q):
+        text = json.dumps(item[2], ensure_ascii=False)
+        if len(text) > 20000:
+            big += 1
+            if big > ctx.budget(12, 400):
+                ctx.count("model:skipped:large")
+                continue
+        if ctx.quick and "sweep" in item[1] and item[1]["sweep"] % 2 == 1 and len(text) > 1500:
+            ctx.count("model:skipped:thinned-sweep")
+            continue
+        if ctx.quick and k % 3 and item[2].get("real") is not None and not item[3].get("any"):
+            # quick tier: the model's loader reads the real document (parsed by the stdlib parser) for every third case only;
+            # the byte-for-byte comparison of the text and the model's own round trip stay for all
+            item = (item[0], item[1], dict(item[2], real=None), dict(item[3], no_real=True))
+            text = json.dumps(item[2], ensure_ascii=False)
+        lines.append(text)
+        q2.append(item)
+    q = q2
+
+    def handle(res):
+        nd = {}
+        for (where, case, line, exp), out in zip(q, res):
+            ctx.traces += 1
+            ctx.count(f"model:compared:{where}")
+            try:
+                m = json.loads(out)
             except Exception:
-                m = {"driver_output": line[:300]}
-            if "dump" not in m:
-                bad = ("driver", m)
-            elif not S.json_same(m["dump"], real):
-                bad = ("dump", S._first_diff(real, m["dump"], eq=S.json_same))
-            elif m.get("reload") is not True:
-                bad = ("model-reload", m.get("reload"))
-            elif m.get("load_real") is not True:
-                bad = ("model-load-of-real-dump", m.get("load_real"))
+                m = {"driver_output": out[:300]}
+            bad = None
+            if not isinstance(m, dict) or "driver_error" in m or "driver_output" in m:
+                bad = ("driver", m, "a verdict")
+            elif exp["rejected"] is not None:
+                if m.get("err") != exp["rejected"]:
+                    bad = ("refusal", m.get("err", "accepted"), exp["rejected"])
+            elif "text" not in m:
+                bad = ("refusal", m.get("err"), "accepted: " + repr(exp["bytes"][:120]))
+            elif m["text"] != exp["bytes"].hex():
+                mt = bytes.fromhex(m["text"])
+                k = next((i for i, (x, y) in enumerate(zip(mt, exp["bytes"])) if x != y), min(len(mt), len(exp["bytes"])))
+                bad = ("text", repr(mt[max(0, k - 40):k + 40]), repr(exp["bytes"][max(0, k - 40):k + 40]) + f" (first difference at byte {k})")
+            elif exp.get("any"):
+                if m.get("back") is not True:
+                    bad = ("loads", "decAny differs", "what orjson.loads returned")
+                elif m.get("lossless") != exp["preserved"]:
+                    bad = ("lossless-predicate", m.get("lossless"), f"value preserved by the real round trip: {exp['preserved']}")
+            elif m.get("reload") != exp["preserved"]:
+                bad = ("reload", m.get("reload"), f"real round trip preserved the message: {exp['preserved']}")
+            elif not exp.get("no_real") and m.get("load_real") != exp["preserved"]:
+                bad = ("load-of-real-document", m.get("load_real"), f"real round trip preserved the message: {exp['preserved']}")
+            if bad is None and exp.get("any"):
+                if m.get("refused") != (exp["rejected"] is not None):
+                    bad = ("refused-predicate", m.get("refused"), f"orjson refused: {exp['rejected']}")
+                elif m.get("native") != exp["native"]:
+                    bad = ("native-predicate", m.get("native"), f"harness classification (JSON-native): {exp['native']}")
+            if bad is None and where == "job-json" and m.get("native") is True and (exp["rejected"] or not exp["preserved"]):
+                bad = ("native-predicate", True, "the real round trip refused / altered a job the model calls JSON-native")
+            if bad is None and where == "gateway-response-json" and m.get("answers") is not True:
+                bad = ("answers", m.get("answers"), True)
+            if bad:
+                nd[where] = nd.get(where, 0) + 1
+                if nd[where] <= 5:
+                    ctx.disagree(f"{where}-{bad[0]}", case if len(json.dumps(case)) < 4000 else {"case": "large", "cls": case.get("cls")},
+                                 _short(bad[1]), _short(bad[2]))
+    batch.add(lines, handle)
+
+
+WIRE_LENS = [0, 1, 24, 255, 1000, 1018, 1019, 1020, 1021, 1024, 1500, 4096, 9000, 32768, 60000, 65400, 65490, 65498, 65502, 65503, 65507, 65600, 70000]
+
+
+def _wire_cases(rng, classes, n):
+    """(request, response) pairs of in-domain messages; string lengths around the old 1024-byte buffer, the page sizes and
+    the largest datagram (65507 bytes); every class in both directions"""
+    reqs = [c for c, (cls, fl, base) in classes.items() if not base and not c.endswith("Response")]
+    rsps = [c for c, (cls, fl, base) in classes.items() if not base and c.endswith("Response")]
+
+    def vals(cname, long_field=None, L=0):
+        out = []
+        for i, (fn, tp) in enumerate(classes[cname][1]):
+            if _is_enum(tp):
+                out.append({"i": str(int(rng.choice(list(tp)).value))})
+            elif tp is int:
+                out.append({"i": str(rng.choice([0, 1, 2**32, 2**63, 2**64 - 1, rng.getrandbits(64)]))})
+            elif fn == long_field:
+                out.append(_sv(rng.choice("kKxz09_") * L))
             else:
-                bad = None
-            if bad and nd < 10:
+                out.append(_sv("".join(rng.choice(_ALPHA) for _ in range(rng.choice([0, 1, 8, 24, 32])))))
+        return out
+
+    def strf(cname):
+        return [fn for fn, tp in classes[cname][1] if tp is str]
+    cases = []
+    # every class, every string field, every length of the list (deterministic part)
+    k = 0
+    for L in WIRE_LENS:
+        for c in reqs + rsps:
+            for f in strf(c) or [None]:
+                if f is None and L != WIRE_LENS[0]:
+                    continue
+                k += 1
+                if c in reqs:
+                    r2 = rsps[k % len(rsps)]
+                    cases.append(({"cls": c, "vals": vals(c, f, L)}, {"cls": r2, "vals": vals(r2)}))
+                else:
+                    r1 = reqs[k % len(reqs)]
+                    cases.append(({"cls": r1, "vals": vals(r1)}, {"cls": c, "vals": vals(c, f, L)}))
+    # exactly the largest datagram, and one byte more, for three request and three response classes (class headers differ)
+    from ekw.c17_wire import MAX_DATAGRAM
+    exact = []
+    for c in rng.sample([c for c in reqs + rsps if strf(c)], 6):
+        f = strf(c)[-1]
+        probe = {"family": "shm", "cls": c, "vals": vals(c, f, 0)}
+        e = real_enc(probe, classes)
+        if "ok" not in e:
+            continue
+        room = MAX_DATAGRAM - len(e["ok"]) // 2
+        for L in (room, room + 1):
+            m = {"cls": c, "vals": [(_sv("m" * L) if fn == f else v) for (fn, _), v in zip(classes[c][1], probe["vals"])]}
+            other = rsps[0] if c in reqs else reqs[0]
+            exact.append((m, {"cls": other, "vals": vals(other)}) if c in reqs else ({"cls": other, "vals": vals(other)}, m))
+    # the deterministic part is sampled: mostly the short ones (the driver reads about 1 MB per second), a fixed share of long ones
+    def longest(case):
+        return max([len(v.get("s", [])) for side in case for v in side["vals"]] + [0])
+    short = [c for c in cases if longest(c) <= 9000]
+    long_ = [c for c in cases if longest(c) > 9000]
+    rng.shuffle(short)
+    rng.shuffle(long_)
+    n_long = max(8, n // 6)
+    cases = exact + long_[:n_long] + short[:max(0, n - n_long - len(exact) - n // 5)]
+    while len(cases) < n:
+        c1, c2 = rng.choice(reqs), rng.choice(rsps)
+        f1, f2 = (rng.choice(strf(c1)) if strf(c1) and rng.random() < 0.6 else None), (rng.choice(strf(c2)) if strf(c2) and rng.random() < 0.6 else None)
+        L1 = rng.choice(WIRE_LENS[:12]) + rng.choice([-1, 0, 0, 1]) if rng.random() < 0.8 else rng.randint(0, 66000)
+        L2 = rng.choice(WIRE_LENS[:12]) + rng.choice([-1, 0, 0, 1]) if rng.random() < 0.8 else rng.randint(0, 66000)
+        cases.append(({"cls": c1, "vals": vals(c1, f1, max(0, L1))}, {"cls": c2, "vals": vals(c2, f2, max(0, L2))}))
+    return cases
+
+
+def _wire_obj(m, classes):
+    cls, fields, _ = classes[m["cls"]]
+    return cls(**{n: py_val(v, tp) for (n, tp), v in zip(fields, m["vals"])})
+
+
+def _wire_canon(msg, classes):
+    name = type(msg).__name__
+    if name not in classes:
+        return {"cls": name, "vals": []}
+    return {"cls": name, "vals": [canon_val(getattr(msg, n, None)) for n, _ in classes[name][1]]}
+
+
+def wire_eval(w, case, classes):
+    """one exchange over the real sockets -> {"c2s": outcome, "s2c": outcome}, outcome = {"ok": msg} | {"err": ...}, and the
+    oracle's findings [(signature, what)]"""
+    from ekw import c17_wire as W
+    import cascade.shm.api as api
+    req, rsp = _wire_obj(case[0], classes), _wire_obj(case[1], classes)
+    for attempt in range(3):
+        out = w.exchange(req, rsp)
+        # a datagram that never arrives (time-out on a loaded machine: UDP may drop) is confirmed by repeating the exchange
+        if not any(o["got"] is None and o["sender_raised"] is None and o["error"] not in (None, "not-run") for o in out.values()):
+            break
+    res, viols = {}, []
+    for d, sent_case, sent in (("c2s", case[0], req), ("s2c", case[1], rsp)):
+        o = out[d]
+        if o["error"] == "not-run":
+            res[d] = None
+            continue
+        n = len(api.ser(sent))
+        show = _show(sent_case, classes)
+        if o["sender_raised"] is not None:
+            res[d] = {"err": "msgsize"}
+            if n <= W.MAX_DATAGRAM:
+                viols.append(({"kind": "in-domain-message-refused-by-transport", "family": "shm-wire", "dir": d, "cls": sent_case["cls"]},
+                              f"{d}: sending {show} ({n} bytes) raised {o['sender_raised']}"))
+        elif o["got"] is None:
+            res[d] = {"err": "decode"}
+            viols.append(({"kind": "not-delivered", "family": "shm-wire", "dir": d, "cls": sent_case["cls"]},
+                          f"{d}: {show} ({n} bytes) was sent without error and the receiving side got nothing it could decode: {o['error']}"))
+        else:
+            got = _wire_canon(o["got"], classes)
+            res[d] = {"ok": got}
+            if got != sent_case:
+                alter = "class" if got["cls"] != sent_case["cls"] else next(
+                    (f"{fn}:" + ("shorter" if len(g.get("s", [])) < len(v.get("s", [])) else "changed") for (fn, _), g, v in zip(classes[sent_case["cls"]][1], got["vals"], sent_case["vals"]) if g != v), "?")
+                viols.append(({"kind": "silently-altered-on-the-wire", "family": "shm-wire", "dir": d, "cls": sent_case["cls"], "alter": alter},
+                              f"{d}: {show} ({n} bytes) was sent without error and decoded as {_show(got, classes)}"))
+    return res, viols
+
+
+def _wire_shrink(w, case, sig, classes):
+    """shorten the long strings while the same failure stays"""
+    def bad(c):
+        return any(v[0] == sig for v in wire_eval(w, c, classes)[1])
+    cur = case
+    for side in (0, 1):
+        for i, v in enumerate(cur[side]["vals"]):
+            if "s" in v and len(v["s"]) > 1:
+                lo, hi = 0, len(v["s"])        # lo passes (or unknown), hi fails
+                while hi - lo > 1:
+                    mid = (lo + hi) // 2
+                    c2 = [dict(cur[0]), dict(cur[1])]
+                    c2[side] = dict(cur[side], vals=cur[side]["vals"][:i] + [{"s": v["s"][:mid]}] + cur[side]["vals"][i + 1:])
+                    if bad(tuple(c2)):
+                        hi = mid
+                    else:
+                        lo = mid
+                c2 = [dict(cur[0]), dict(cur[1])]
+                c2[side] = dict(cur[side], vals=cur[side]["vals"][:i] + [{"s": v["s"][:hi]}] + cur[side]["vals"][i + 1:])
+                if bad(tuple(c2)):
+                    cur = tuple(c2)
+    return cur
+
+
+def _run_wire(ctx, with_model, n, batch=None):
+    """cascade.shm end to end: real client, real server, real UDP sockets (ekw/c17_wire.py)"""
+    from ekw import c17_wire as W
+    try:
+        classes = shm_classes()
+        w = W.Wire()
+    except Exception as e:
+        ctx.notes.append(f"shm wire not run: {type(e).__name__}: {e}")
+        ctx.count("wire:not-run")
+        return
+    try:
+        measured = W.probe_max_datagram()
+        ctx.count(f"wire:max_datagram_measured:{measured}")
+        cases = [tuple(c["pair"]) for c in _load_corpus() if c.get("family") == "shm-wire"] + _wire_cases(ctx.rng, classes, n)
+        results, reported = [], set()
+        for case in cases:
+            try:
+                res, viols = wire_eval(w, case, classes)
+            except Exception as e:
+                ctx.count("wire:harness_error:" + type(e).__name__)
+                results.append(None)
+                continue
+            results.append(res)
+            ctx.case({"family": "shm-wire", "req": _show(case[0], classes), "rsp": _show(case[1], classes)}, nontrivial=True, sample_every=50)
+            for d in ("c2s", "s2c"):
+                if res.get(d) is not None:
+                    ctx.count(f"wire:{d}:" + ("delivered" if "ok" in res[d] else res[d]["err"]))
+                    ctx.count(f"wire:{d}:cls:" + case[0 if d == "c2s" else 1]["cls"])
+            for side in (0, 1):
+                L = max([len(v.get("s", [])) for v in case[side]["vals"]] + [0])
+                ctx.count("wire:longest_string:" + ("<=1019" if L <= 1019 else "1020..4096" if L <= 4096 else "4097..65000" if L <= 65000 else "65001..65507" if L <= 65507 else ">65507"))
+            for sig, what in viols:
+                key = json.dumps(sig, sort_keys=True)
+                if key in reported:
+                    ctx.count("wire:oracle_failures_same_kind")
+                    continue
+                reported.add(key)
+                small = case
+                try:
+                    small = _wire_shrink(w, case, sig, classes)
+                    what = next((v[1] for v in wire_eval(w, small, classes)[1] if v[0] == sig), what)
+                except Exception as e:
+                    ctx.count("wire:shrink_failed:" + type(e).__name__)
+                ctx.violation(sig, {"family": "shm-wire", "pair": [small[0], small[1]]}, what)
+    finally:
+        w.close()
+    if not with_model:
+        return
+    lines = [json.dumps({"op": "limits"})]
+    idx = []
+    for k, (case, res) in enumerate(zip(cases, results)):
+        if res is None:
+            continue
+        for d, side in (("c2s", 0), ("s2c", 1)):
+            if res.get(d) is not None:
+                lines.append(json.dumps({"op": "wire", "dir": d, "cls": case[side]["cls"], "vals": [_wire(v) for v in case[side]["vals"]]}))
+                idx.append((k, d, side))
+
+    def handle(out):
+        lim = json.loads(out[0])
+        ctx.traces += 1
+        if lim.get("max_datagram") != measured:
+            ctx.disagree("wire-max-datagram", {"op": "limits"}, lim, {"largest datagram sendto accepts on this host": measured})
+        ctx.extra["wire"] = {"model_limits": lim, "max_datagram_measured": measured}
+        nd = 0
+        for (k, d, side), line in zip(idx, out[1:]):
+            ctx.traces += 1
+            m = _unwire(json.loads(line))
+            r = results[k][d]
+            if isinstance(m, dict) and m.get("err", "").startswith("decode:"):
+                m = {"err": "decode"}
+            if m != r and nd < 10:
                 nd += 1
-                ctx.disagree("job-json-" + bad[0], case if len(json.dumps(case)) < 4000 else {"case": "large", "cls": case["cls"]},
-                             _short(bad[1]), "the dump written by the real code / the instance it was built from")
+                ctx.disagree("shm-wire-" + d, {"msg": _show(cases[k][side], classes)}, _short(m), _short(r))
+    batch.add(lines, handle)
 
 
 def _run(ctx, with_model):
-    _run_shm(ctx, with_model, ctx.budget(1000, 50000))
-    _run_sampled(ctx, ctx.budget(150, 4000), with_model)
+    batch = Batch()
+    _run_shm(ctx, with_model, ctx.budget(1000, 50000), batch=batch)
+    _run_wire(ctx, with_model, ctx.budget(100, 3000), batch=batch)
+    _run_sampled(ctx, ctx.budget(150, 4000), with_model, batch=batch)
+    batch.flush(ctx)
 
 
 def correspond(ctx):
@@ -643,6 +1092,37 @@ def replay(payload):
             return 1
         print("imports fine")
         return 0
+    if case.get("family") == "shm-probe":
+        import cascade.shm.api as api
+        classes = shm_classes()
+        cls, fields, _ = classes[case["cls"]]
+        kw = {n: (_LongStr("k") if n == case["field"] else (list(tp)[0] if _is_enum(tp) else 1 if tp is int else n)) for n, tp in fields}
+        try:
+            b = api.ser(cls(**kw))
+            print(f"api.ser({case['cls']}({case['field']}=<str whose len() is 2^32>)) returned {len(b)} bytes: accepted")
+            return 1
+        except Exception as e:
+            print("raised", type(e).__name__, e)
+            return 0
+    if case.get("family") == "shm-wire":
+        from ekw import c17_wire as W
+        classes = shm_classes()
+        w = W.Wire()
+        try:
+            pair = tuple(case["pair"])
+            print("request :", _show(pair[0], classes))
+            print("response:", _show(pair[1], classes))
+            res, viols = wire_eval(w, pair, classes)
+        finally:
+            w.close()
+        for d in ("c2s", "s2c"):
+            r = res.get(d)
+            print(f"{d}     :", "not run" if r is None else _show(r["ok"], classes) if "ok" in r else r)
+        for _, what in viols:
+            print("oracle  :", what)
+        if not viols:
+            print("oracle  : ok")
+        return 1 if viols else 0
     if case.get("family") == "shm":
         classes = shm_classes()
         print("message :", _show(case, classes))
